@@ -655,7 +655,7 @@ func main() {
 	t0 := time.Now()
 	o := core.ParseFlags(80, 1200)
 	res := &core.Result{Property: "C15", Tier: o.Tier,
-		Technique: "explicit-state BFS over chat/usermessage/clearchat/join/leave/tick sequences through the real handleClientMessage; all websocket output compared with a reference chat model"}
+		Technique: "explicit-state BFS over chat/usermessage/clearchat/join/leave/tick sequences through the real handleClientMessage; all websocket output compared with a reference chat model; conformance of the handler mirror against the real StartClient over websockets on all ordered message pairs"}
 	defer sig.Cleanup()
 	if o.Replay != "" {
 		replay(o.Replay)
@@ -665,9 +665,17 @@ func main() {
 		runRaces(res, o.Shard, o.Shards)
 		core.Finish(res, t0)
 	}
+	if o.Shard >= 0 && flag.Arg(0) == "wire" {
+		if core.Want("wire/pairs") {
+			runWire(res, o.Shard, o.Shards)
+		}
+		sig.Cleanup()
+		core.Finish(res, t0)
+	}
 	if o.Shard < 0 {
 		core.RunShards(res, core.NCPU(), nil, nil)
 		core.RunShards(res, 4, []string{"race"}, nil)
+		core.RunShards(res, 4, []string{"wire"}, nil)
 		res.Assume("queued actions are handled to quiescence after every message (the property quantifies over histories and inputs, not schedules); client k always logs in as the k-th configured user")
 		core.Finish(res, t0)
 	}
